@@ -125,6 +125,12 @@ func c11() {
 			}
 			replay["strace"] = raws
 		}
+		if si := res.Line("second_install"); si != nil {
+			run.Count("second_install_attempts_exposed_to_a_forced_migration", 1)
+			if mg, _ := si["migrated"].(bool); mg {
+				run.Count("second_install_attempts_that_ran_on_another_thread", 1)
+			}
+		}
 		ok, _ := l["ok"].(bool)
 		errText := fmt.Sprint(l["err"])
 		migrated, _ := l["migrated"].(bool)
@@ -251,9 +257,23 @@ func c11() {
 						return
 					}
 				}
+				if si := res.Line("second_install"); si != nil {
+					// the hook of a second install attempt moved the goroutine (it was not locked): the thread it left the hook on
+					// is the one that made the system call
+					stid := fmt.Sprint(jsonU64(si["tid_out"]))
+					if am, _ := after[stid].(map[string]any); am != nil && fmt.Sprint(am["Exiting"]) != "1" && fmt.Sprint(am["NoNewPrivs"]) != "1" {
+						run.Violation("installing-thread-without-nnp", fmt.Sprintf("%s: NoNewPrivs requested and the load returned nil after %d install attempts; the last one was made on thread %s (the goroutine was not kept on the thread that set the bit: entered the hook on %v), which has NoNewPrivs=%v", desc, len(ins), stid, si["tid_in"], am["NoNewPrivs"]), replay)
+						return
+					}
+				}
 				run.Count("installing_thread_state_checked", 1)
 				if len(ins) > 1 {
 					run.Count("loads_with_more_than_one_install_attempt", 1)
+					m0, _ := ins[0].(map[string]any)
+					m1, _ := ins[len(ins)-1].(map[string]any)
+					if jsonU64(m0["tid"]) != jsonU64(m1["tid"]) {
+						run.Count("loads_whose_last_install_attempt_ran_on_another_thread_than_the_first", 1)
+					}
 				}
 			}
 			if sameBefore && ok && fmt.Sprint(l["prior_err"]) == "" {
